@@ -82,7 +82,10 @@ TRUSTED = [
     "bracketed hosts are approximated (IPvFuture syntax, IPv6 hex groups), NFKC netloc checks are not modelled (identity on the model alphabet)",
     "the theorems hold for ANY target function (termination, fixed point, iteration law are generic in `target`); only the embeddedness "
     "theorem depends on the modelled extraction",
-    "Python side: a low recursion limit and a per-call interval timer turn a loop into an error output instead of a hang",
+    "Python side: a low recursion limit and a per-call interval timer (3 s, 0.5 s once a call has timed out in the process; outcomes memoised per "
+    "process, the function being pure) turn a loop into an error output instead of a hang",
+    "the cleaning class (what CONTROL_CHARS_RE.sub removes, what str.strip removes) is observed by the translator on every code point and "
+    "pinned by the obligation cleaning_class_unchanged; the generator of unclean inner hops derives its characters from the running code the same way",
 ]
 ASSUMPTIONS = [
     "strings contain no lone surrogates; non-ASCII characters come from the plain alphabet of DESIGN.md §4 plus U+0130, U+0131, U+017F, U+212A",
@@ -94,7 +97,9 @@ ASSUMPTIONS = [
 ]
 UNPROVED = (
     "nothing of the statement is left to the oracle alone for the model; urljoin/unquote/urlsplit are modelled-not-verified prelude "
-    "(embeddedness is stated in terms of the model's urljoin and unquote)"
+    "(embeddedness is stated in terms of the model's urljoin and unquote). That the implementation recurses the way the model does "
+    "(every hop reads the cleaned form of its decoded target: infer_every_hop_cleans; the clean-once recursion provably breaks the fixed-point "
+    "clause: clean_once_is_not_a_fixed_point) is established by differential execution on the unclean_hops class, not by proof"
 )
 
 LIMIT_EXTRA = 120
